@@ -474,7 +474,10 @@ func (c *daneDelivery) PrepareConn(ctx context.Context, mx string) {
 		return
 	}
 
-	c.tlsaFut = future.New()
+	// The lookup goroutine must not use c.tlsaFut: it may be running (or even
+	// start) after PrepareConn was called for the next MX.
+	tlsaFut := future.New()
+	c.tlsaFut = tlsaFut
 
 	go func() {
 		defer func() {
@@ -484,7 +487,7 @@ func (c *daneDelivery) PrepareConn(ctx context.Context, mx string) {
 			}
 		}()
 
-		c.tlsaFut.Set(c.discoverTLSA(ctx, dns.FQDN(mx)))
+		tlsaFut.Set(c.discoverTLSA(ctx, dns.FQDN(mx)))
 	}()
 }
 
